@@ -30,6 +30,9 @@ type c12Case struct {
 	// OddKeys: the argument's maps are keyed by something else than the identifiers (a list put together by hand); a
 	// definition is what its ID field says
 	OddKeys bool `json:"odd_keys,omitempty"`
+	// VTT: both lists look like lists read from WebVTT files: a timestamp map each (different offsets) and style "a"
+	// renamed to the identifier the WebVTT reader reserves for STYLE blocks, holding CSS
+	VTT bool `json:"vtt,omitempty"`
 }
 
 func init() { register("c12", checkC12) }
@@ -128,6 +131,32 @@ func checkC12(c c12Case) string {
 		return ""
 	}
 	b, bItems := mkSide(c.B, c.BStyles, c.BRegions, c.BareArgument, "B")
+	if c.VTT {
+		for k, side := range []*astisub.Subtitles{a, b} {
+			side.Metadata = &astisub.Metadata{WebVTTTimestampMap: &astisub.WebVTTTimestampMap{Local: time.Duration(k) * 10 * time.Second, MpegTS: int64(900000 * (1 + 3*k))}}
+			if st, ok := side.Styles["a"]; ok {
+				delete(side.Styles, "a")
+				st.ID = "astisub-webvtt-default-style-id"
+				if st.InlineStyle == nil {
+					st.InlineStyle = &astisub.StyleAttributes{}
+				}
+				st.InlineStyle.WebVTTStyles = []string{fmt.Sprintf("::cue { color: %s }", []string{"red", "lime"}[k])}
+				side.Styles[st.ID] = st
+			}
+		}
+	}
+	aOwn := func() string {
+		keep := &astisub.Subtitles{Styles: map[string]*astisub.Style{}, Regions: map[string]*astisub.Region{}, Metadata: a.Metadata}
+		for id, v := range a.Styles {
+			keep.Styles[id] = v
+		}
+		for id, v := range a.Regions {
+			keep.Regions[id] = v
+		}
+		return canon(keep)
+	}
+	aDeep := aOwn()
+	bMeta := canon(&astisub.Subtitles{Metadata: b.Metadata})
 	if c.OddKeys {
 		// keys taken from the other end of the identifier pool, so that a key may equal another definition's identifier
 		rekey := map[string]string{"a": "d", "b": "zz", "c": "a", "d": "k-d"}
@@ -167,6 +196,7 @@ func checkC12(c c12Case) string {
 		bSnaps[i] = snapItem(it)
 	}
 	bNilStyles, bNilRegions := b.Styles == nil, b.Regions == nil
+	bDeep := canon(&astisub.Subtitles{Styles: b.Styles, Regions: b.Regions})
 
 	a.Merge(b)
 
@@ -244,19 +274,36 @@ func checkC12(c c12Case) string {
 			return "argument's cue: " + m
 		}
 	}
+	// A's definitions and metadata are the ones it had, to the last attribute
+	keep := &astisub.Subtitles{Styles: map[string]*astisub.Style{}, Regions: map[string]*astisub.Region{}, Metadata: a.Metadata}
+	for id := range aStyles {
+		keep.Styles[id] = a.Styles[id]
+	}
+	for id := range aRegions {
+		keep.Regions[id] = a.Regions[id]
+	}
+	if got := canon(keep); got != aDeep {
+		return fmt.Sprintf("the receiver's own definitions or metadata changed in the merge\n--- before ---\n%s\n--- after ---\n%s", clip(aDeep, 700), clip(got, 700))
+	}
+	if got := canon(&astisub.Subtitles{Metadata: b.Metadata}); got != bMeta {
+		return fmt.Sprintf("the argument's metadata changed in the merge\n--- before ---\n%s\n--- after ---\n%s", clip(bMeta, 400), clip(got, 400))
+	}
 	bUnchanged := func() string {
 		if len(b.Styles) != len(bStyles) || len(b.Regions) != len(bRegions) || (b.Styles == nil) != bNilStyles || (b.Regions == nil) != bNilRegions {
 			return "argument's maps were modified"
 		}
 		for id, st := range bStyles {
-			if b.Styles[id] != st || (st.ID != id) != c.OddKeys || st.InlineStyle.SSAFontName != "B"+st.ID {
+			if b.Styles[id] != st || (st.ID != id) != c.OddKeys {
 				return "argument's style definitions were modified"
 			}
 		}
 		for id, rg := range bRegions {
-			if b.Regions[id] != rg || (rg.ID != id) != c.OddKeys || rg.InlineStyle.WebVTTWidth != "B"+rg.ID {
+			if b.Regions[id] != rg || (rg.ID != id) != c.OddKeys {
 				return "argument's region definitions were modified"
 			}
+		}
+		if got := canon(&astisub.Subtitles{Styles: b.Styles, Regions: b.Regions}); got != bDeep {
+			return fmt.Sprintf("argument's definitions were modified\n--- before ---\n%s\n--- after ---\n%s", clip(bDeep, 600), clip(got, 600))
 		}
 		return ""
 	}
@@ -342,6 +389,7 @@ func TestC12(t *testing.T) {
 			BareDefs:     rapid.IntRange(0, 3).Draw(rt, "baredefs") == 0,
 			OddKeys:      rapid.IntRange(0, 4).Draw(rt, "oddkeys") == 0,
 		}
+		c.VTT = !c.OddKeys && rapid.IntRange(0, 3).Draw(rt, "vtt") == 0
 		if rapid.IntRange(0, 4).Draw(rt, "samefile") == 0 && len(c.A) > 0 {
 			// two readings of the same file, or two files sharing cues: the argument's cues equal cues of the receiver
 			// in every field (distinct objects all the same); with or without definitions
@@ -378,6 +426,9 @@ func TestC12(t *testing.T) {
 		var ls []string
 		if c.OddKeys && len(c.BStyles)+len(c.BRegions) > 0 {
 			ls = append(ls, "argument-maps-keyed-by-something-else-than-the-ids")
+		}
+		if c.VTT {
+			ls = append(ls, "both-lists-with-timestamp-map-and-default-style")
 		}
 		if tie {
 			ls = append(ls, "merge-tie-across-lists")
